@@ -94,6 +94,10 @@ type Interp struct {
 	NoLin    bool // keep + - * as binary terms (operand order matters to the rule)
 	depth    int
 	fnStack  []*ast.FuncType
+	// statement-level forking on an inlined helper whose paths disagree (a, b = helper(..)):
+	// execStmt sets forkCall; evalCall leaves the returning paths in forked
+	forkCall *ast.CallExpr
+	forked   []*State
 }
 
 func newInterp(c *Ctx) *Interp { return &Interp{C: c, MaxPaths: 600} }
@@ -224,6 +228,42 @@ func (in *Interp) execStmt(s ast.Stmt, st *State) []*State {
 		in.eval(st, x.X)
 		return []*State{st}
 	case *ast.AssignStmt:
+		// `a, b = helper(..)` with a new helper whose returning paths differ: one successor per path
+		if len(x.Rhs) == 1 && (x.Tok == token.ASSIGN || x.Tok == token.DEFINE) && in.Inline != nil {
+			if call, ok := unparen(x.Rhs[0]).(*ast.CallExpr); ok {
+				if callee := in.C.Callee(call); callee != nil && in.Inline(callee) {
+					base := st.Clone()
+					in.forkCall, in.forked = call, nil
+					t := in.eval(st, x.Rhs[0])
+					forked := in.forked
+					in.forkCall, in.forked = nil, nil
+					if forked == nil {
+						in.execAssignWith(st, x, t)
+						return []*State{st}
+					}
+					var out []*State
+					for _, r := range forked {
+						ns := base.Clone()
+						ns.Mem, ns.Eff, ns.X, ns.Conds = r.Mem, r.Eff, r.X, r.Conds
+						for k, v := range r.Flags {
+							ns.Flags[k] = v
+						}
+						var rt *T
+						switch len(r.Ret) {
+						case 0:
+							rt = &T{Op: "tuple", Name: "void"}
+						case 1:
+							rt = r.Ret[0]
+						default:
+							rt = &T{Op: "tuple", Name: "", Args: r.Ret}
+						}
+						in.execAssignWith(ns, x, rt)
+						out = append(out, ns)
+					}
+					return out
+				}
+			}
+		}
 		in.execAssign(st, x)
 		return []*State{st}
 	case *ast.IncDecStmt:
@@ -615,9 +655,19 @@ func (in *Interp) execAssign(st *State, x *ast.AssignStmt) {
 		in.store(st, x.Lhs[0], in.binop(op, cur, rhs, in.C.TypeOf(x.Lhs[0])))
 		return
 	}
+	in.execAssignWith(st, x, nil)
+}
+
+// execAssignWith: as execAssign; pre, when given, is the already evaluated single right-hand side.
+func (in *Interp) execAssignWith(st *State, x *ast.AssignStmt, pre *T) {
 	var vals []*T
-	if len(x.Rhs) == 1 && len(x.Lhs) > 1 {
-		t := in.eval(st, x.Rhs[0])
+	if pre != nil && len(x.Rhs) == 1 && len(x.Lhs) == 1 {
+		vals = []*T{pre}
+	} else if len(x.Rhs) == 1 && len(x.Lhs) > 1 {
+		t := pre
+		if t == nil {
+			t = in.eval(st, x.Rhs[0])
+		}
 		for i := range x.Lhs {
 			if t.Op == "tuple" && i < len(t.Args) {
 				vals = append(vals, t.Args[i])
@@ -1232,6 +1282,10 @@ func (in *Interp) evalCall(st *State, call *ast.CallExpr, stmt bool) *T {
 					if len(r.Eff) != len(st.Eff) {
 						pure = false
 					}
+				}
+				if in.forkCall == call && !flagged && len(rets) > 1 && !(agree && pure) {
+					in.forked = rets
+					return &T{Op: "tuple", Name: "forked"}
 				}
 				if agree && !flagged && (len(rets) == 1 || pure) {
 					r0 := rets[0]
